@@ -1326,9 +1326,23 @@ def add_invariant_checks(cls: ClassT) -> None:
 
     for name, func in names_funcs:
         wrapper = _decorate_with_invariants(func=func, is_init=False)
-        setattr(cls, name, wrapper)
+
+        # A function which is inherited and already decorated with the invariant checks must not be set again
+        # as an attribute of this class. Otherwise the attribute in the dictionary of this class would shadow,
+        # for the sub-classes with multiple bases, the definitions coming later in the method resolution order.
+        if wrapper is not func or name in cls.__dict__:
+            setattr(cls, name, wrapper)
 
     for name, prop in names_properties:
+        if (
+            name not in cls.__dict__
+            and (prop.fget is None or _already_decorated_with_invariants(prop.fget))
+            and (prop.fset is None or _already_decorated_with_invariants(prop.fset))
+            and (prop.fdel is None or _already_decorated_with_invariants(prop.fdel))
+        ):
+            # See the comment above on the inherited functions which are already decorated.
+            continue
+
         new_prop = property(
             fget=_decorate_with_invariants(func=prop.fget, is_init=False)
             if prop.fget
